@@ -90,9 +90,16 @@ class ObsFuture(Future):
     def result(self, timeout=None):
         b = self.bench
         if b is not None and threading.current_thread() is b.flush_thread:
+            if b.flush1_times_out and b.flush_runs == 1 and not self.done():
+                # stands for the 10 s bound of future.result(10) being reached during the FIRST flush
+                import concurrent.futures
+                raise concurrent.futures.TimeoutError()
             self._maybe_park(b)
             b.flush_at = self
             b.flush_event.release()
+        elif b is not None and threading.current_thread() is b.flush2_thread:
+            b.flush2_at = self
+            b.flush2_event.release()
         return super().result(timeout)
 
 
@@ -231,8 +238,13 @@ class Bench:
     the sends seen by the fake channel, what `push_snapshot` / `flush` return or raise.  Private attributes that make
     the bench sharper (`_pool`, `_pending`, `_open`) are probed; without them the bench goes on and says `degraded`."""
 
-    def __init__(self, mode, outcomes, park_flush=False):
+    def __init__(self, mode, outcomes, park_flush=False, flush1_times_out=False):
         self.mode = mode
+        self.flush1_times_out = flush1_times_out
+        self.flush2_thread = None          # a second, concurrent caller of flush()
+        self.flush2_at = None
+        self.flush2_event = threading.Semaphore(0)
+        self.flush2_outcome = None
         self.degraded = []
         self.park_flush = park_flush
         self.flush_parked_once = False
@@ -357,6 +369,7 @@ class Bench:
         job.go.set()
         self.wait_job(job, 'finish')          # arrives at the callback gate, or at its end
         self.settle_flush()
+        self.settle_flush2()
 
     def do_callback(self, jid):
         job = self.job(jid)
@@ -419,6 +432,43 @@ class Bench:
         except Exception:
             return 0
 
+    def do_flush2_begin(self):
+        """flush() called by another thread while (or after) the first caller's flush"""
+        if self.flush2_thread is not None:
+            return
+        self.flush2_outcome = 'waiting'
+
+        def body():
+            try:
+                self.handler.flush()
+                self.flush2_outcome = 'returned'
+            except Exception as e:
+                self.flush2_outcome = 'raised_exc'
+                self.flush_error = f'second flush: {type(e).__name__}: {e}'
+            except BaseException as e:  # noqa: B902
+                self.flush2_outcome = 'raised_base'
+                self.flush_error = f'second flush: {type(e).__name__}: {e}'
+            self.flush2_at = None
+            self.flush2_event.release()
+        self.flush2_thread = threading.Thread(target=body, daemon=True)
+        self.flush2_thread.start()
+        self.settle_flush2(first=True)
+
+    def settle_flush2(self, first=False):
+        t = self.flush2_thread
+        if t is None:
+            return
+        while True:
+            if not first and self.flush2_outcome != 'waiting':
+                t.join(WAIT)
+                return
+            at = self.flush2_at
+            if not first and at is not None and not at.done():
+                return
+            if not self.flush2_event.acquire(timeout=WAIT):
+                raise Stalled('second flush thread made no progress in %s s' % WAIT)
+            first = False
+
     def do_flush_go(self):
         if not self.flush_parked:
             return
@@ -455,7 +505,8 @@ class Bench:
                 'degraded': list(self.degraded),
                 'open': (bool(self.handler._open) if hasattr(self.handler, '_open') else None),
                 'pending': self.pending_keys(),
-                'flush': self.flush_outcome or 'idle', 'refused': len(self.refused),
+                'flush': self.flush_outcome or 'idle', 'flush_runs': self.flush_runs,
+                'flush2': self.flush2_outcome, 'refused': len(self.refused),
                 'refusals': [[k, name, exc] for k, name, exc in self.refused], 'tasks': tasks,
                 'stray_sends': len([1 for kk, _ in sends if kk is None])}
 
@@ -484,10 +535,13 @@ class Bench:
                 pass
         if self.flush_thread is not None:
             self.flush_thread.join(2)
+        if self.flush2_thread is not None:
+            self.flush2_thread.join(2)
 
 
 def run_det(case):
-    b = Bench('det', case['outcomes'], park_flush=bool(case.get('park_flush')))
+    b = Bench('det', case['outcomes'], park_flush=bool(case.get('park_flush')),
+              flush1_times_out=bool(case.get('flush1_times_out')))
     trace = []
     try:
         for st in case['sched']:
@@ -504,6 +558,8 @@ def run_det(case):
                 b.do_flush_begin()
             elif s == 'flushGo':
                 b.do_flush_go()
+            elif s == 'flush2Begin':
+                b.do_flush2_begin()
             else:
                 raise core.Infra('unknown step ' + s)
             trace.append(b.observe())
@@ -745,12 +801,41 @@ def gen_park(rng):
     return {'mode': 'det', 'park_flush': True, 'outcomes': outcomes, 'sched': sched}
 
 
+def gen_multiflush(rng):
+    """flush called again while tasks are still in flight: by a second thread while the first caller's flush is blocked
+    on a running task, or by the same caller after its first flush gave up waiting (the 10 s bound, simulated).
+    Every flush call must block until the tasks accepted before it have ended.  Oracle only."""
+    n = rng.randint(1, 3)
+    outcomes = [rng.choice(['ok', 'ok', 'send_exc', 'send_base']) for _ in range(n)]
+    sched = [{'s': 'push'} for _ in range(n)]
+    order = list(range(1, n + 1))
+    rng.shuffle(order)
+    started = order[:rng.randint(1, n)]
+    sched += [{'s': 'start', 'id': j, 'w': 0} for j in started]
+    case = {'mode': 'det', 'outcomes': outcomes}
+    if rng.random() < 0.5:
+        sched += [{'s': 'flushBegin'}, {'s': 'flush2Begin'}]
+    else:
+        case['flush1_times_out'] = True
+        sched += [{'s': 'flushBegin'}, {'s': 'flushBegin'}]
+        if rng.random() < 0.3:
+            sched.append({'s': 'flush2Begin'})
+    for j in order:
+        if j not in started:
+            sched.append({'s': 'start', 'id': j, 'w': 1})
+        sched += [{'s': 'finish', 'id': j}, {'s': 'callback', 'id': j}]
+    case['sched'] = sched
+    return case
+
+
 def gen(rng, tier):
     k = 0
     while True:
         k += 1
         if k % 10 == 3:
             yield gen_park(rng)
+        elif k % 10 == 7:
+            yield gen_multiflush(rng)
         elif k % 12 == 0:
             yield gen_pool(rng, tier, base_first=(k % 24 == 0))
         else:
@@ -778,6 +863,10 @@ def corpus():
         # task 2 completes and is forgotten exactly while flush looks at task 1
         {'mode': 'det', 'park_flush': True, 'outcomes': ['ok', 'ok'],
          'sched': [P, P, st(1), st(2), F, fi(2), cb(2), {'s': 'flushGo'}, fi(1), cb(1)]},
+        # a second caller of flush while the first is blocked on a running task; flush again after a wait timed out
+        {'mode': 'det', 'outcomes': ['ok'], 'sched': [P, st(1), F, {'s': 'flush2Begin'}, fi(1), cb(1)]},
+        {'mode': 'det', 'flush1_times_out': True, 'outcomes': ['ok', 'send_exc'],
+         'sched': [P, P, st(1), st(2), F, F, fi(2), cb(2), fi(1), cb(1)]},
         # 20 failing tasks (the suite's test, with the schedule pinned)
         {'mode': 'det', 'outcomes': ['dies_exc', 'dies_base', 'send_exc'],
          'sched': [P, P, P, st(1), st(2), st(3), fi(3), fi(2), fi(1), F, cb(1), cb(2), cb(3)]},
@@ -832,7 +921,14 @@ def judge_state(case, o, where, pushes_after_close, outs):
         v.append(f'{where}: snapshot(s) {o["caller_sends"]} were sent on the application thread that pushed them')
     if o['stray_sends']:
         v.append(f'{where}: {o["stray_sends"]} sends of something that is not one of the pushed snapshots')
-    if o['flush'] == 'returned':
+    if (o.get('flush2') or '').startswith('raised'):
+        v.append(f'{where}: the second flush() raised ({o["flush2"]})')
+    if o.get('flush2') == 'returned':
+        late = [t['id'] for t in o['tasks'] if t['fut'] != 'done']
+        if late:
+            v.append(f'{where}: a second flush() (another caller) has returned but tasks {late} accepted before it '
+                     f'are not finished')
+    if o['flush'] == 'returned' and not (case.get('flush1_times_out') and o.get('flush_runs', 0) < 2):
         late = [t['id'] for t in o['tasks'] if t['fut'] != 'done']
         if late:
             v.append(f'{where}: flush() has returned but tasks {late} accepted before it are not finished')
@@ -929,8 +1025,9 @@ def pool_model_sched(case):
 
 
 def model_request(case, obs):
-    if case.get('park_flush'):
-        return None      # flush parked in the middle of its own bookkeeping: no such region in the model
+    if case.get('park_flush') or case.get('flush1_times_out') or any(st['s'] == 'flush2Begin' for st in case['sched']):
+        return None      # flush parked inside its own bookkeeping / two callers of flush / a wait that timed out:
+        #                  no such region in the model — judged by the oracle
     # outcomes by job id = outcomes of the accepted pushes, in order
     outs = accepted_outcomes(case, None)
     sched = pool_model_sched({'outcomes': outs, 'sched': case['sched']}) if case['mode'] == 'pool' else case['sched']
@@ -997,7 +1094,9 @@ def label(case, obs):
     f = _features(case)
     deg = 'degraded/' if (obs.get('bench_error') or any(o.get('degraded') for o in obs.get('trace') or [])
                           or (obs.get('final') or {}).get('degraded')) else ''
-    return deg + case['mode'] + ('-flush-parked' if case.get('park_flush') else '') + '/' + \
+    multi = '-flush-again-after-timeout' if case.get('flush1_times_out') else \
+        '-two-flush-callers' if any(st['s'] == 'flush2Begin' for st in case['sched']) else ''
+    return deg + case['mode'] + ('-flush-parked' if case.get('park_flush') else '') + multi + '/' + \
         ('+'.join(sorted(f)) if f else 'plain')
 
 
@@ -1006,7 +1105,7 @@ def nontrivial(case, obs):
 
 
 def shrink(case):
-    if case.get('park_flush'):
+    if case.get('park_flush') or case.get('flush1_times_out'):
         return
     sc = case['sched']
     for i in range(len(sc) - 1, -1, -1):
